@@ -223,9 +223,17 @@ type transform struct {
 	s      float64
 	tx, ty float64
 	name   string
+	pow    float64 // exact power-of-two rescaling applied last (0 = none)
 }
 
-func (tr transform) pt(p orb.Point) orb.Point { return orb.Point{p[0]*tr.s + tr.tx, p[1]*tr.s + tr.ty} }
+func (tr transform) pt(p orb.Point) orb.Point {
+	q := orb.Point{p[0]*tr.s + tr.tx, p[1]*tr.s + tr.ty}
+	if tr.pow != 0 {
+		q[0] *= tr.pow
+		q[1] *= tr.pow
+	}
+	return q
+}
 func (tr transform) ring(r orb.Ring) orb.Ring {
 	out := make(orb.Ring, len(r))
 	for i, p := range r {
@@ -239,21 +247,51 @@ func (tr transform) box(b orb.Bound) orb.Bound {
 
 // drawTransform: identity most of the time; otherwise a scale and a translation. exact = only powers of
 // two and (half-)integers so that lattice coincidences survive bit-exactly.
-func drawTransform(t *rapid.T, exact bool) transform {
-	if rapid.IntRange(0, 9).Draw(t, "tr") < 6 {
-		return transform{1, 0, 0, "identity"}
+func drawTransform(g *stream, exact bool) transform {
+	t := g.t
+	tr := transform{1, 0, 0, "identity", 0}
+	switch mode := rapid.IntRange(0, 9).Draw(t, "tr"); {
+	case mode <= 3:
+	case mode <= 6:
+		scales := []float64{1, 1.0 / 1024, 1024, 3.7, 0.013}
+		if exact {
+			scales = scales[:3]
+		}
+		shifts := [][2]float64{{0, 0}, {-3, -3}, {-7.5, 2}, {1000, -2000}, {-0.75, 0.1}}
+		if exact {
+			shifts = shifts[:4]
+		}
+		s := scales[rapid.IntRange(0, len(scales)-1).Draw(t, "trs")]
+		sh := shifts[rapid.IntRange(0, len(shifts)-1).Draw(t, "trt")]
+		tr = transform{s, sh[0], sh[1], fmt.Sprintf("scale %g shift (%g,%g)", s, sh[0], sh[1]), 0}
+	default:
+		// a small box (side about 1..100) far from the origin (offsets up to 2e7): the web-mercator tile
+		// situation. exact: power-of-two scale and integer offsets, so that lattice coincidences survive.
+		s := g.rng("fars", 0.3, 20)
+		tx, ty := g.rng("farx", -2e7, 2e7), g.rng("fary", -2e7, 2e7)
+		if exact {
+			s = float64(int(1) << uint(rapid.IntRange(0, 4).Draw(t, "farpow")))
+			tx, ty = math.Round(tx), math.Round(ty)
+		}
+		tr = transform{s, tx, ty, "far from the origin", 0}
+		stats.Class("transform:small box far from the origin (offsets up to 2e7)")
 	}
-	scales := []float64{1, 1.0 / 1024, 1024, 3.7, 0.013}
-	if exact {
-		scales = scales[:3]
+	// exact power-of-two rescaling of everything (ring, box, query points): verdicts must not depend on
+	// the unit of length
+	if rapid.IntRange(0, 2).Draw(t, "rescale") == 0 {
+		k := rapid.IntRange(-40, 40).Draw(t, "pow2")
+		tr.pow = math.Ldexp(1, k)
+		tr.name += fmt.Sprintf(" x 2^%d", k)
+		switch {
+		case k <= -14:
+			stats.Class("transform:rescaled by 2^k, k in -40..-14")
+		case k >= 14:
+			stats.Class("transform:rescaled by 2^k, k in 14..40")
+		default:
+			stats.Class("transform:rescaled by 2^k, |k| < 14")
+		}
 	}
-	shifts := [][2]float64{{0, 0}, {-3, -3}, {-7.5, 2}, {1000, -2000}, {-0.75, 0.1}}
-	if exact {
-		shifts = shifts[:4]
-	}
-	s := scales[rapid.IntRange(0, len(scales)-1).Draw(t, "trs")]
-	sh := shifts[rapid.IntRange(0, len(shifts)-1).Draw(t, "trt")]
-	return transform{s, sh[0], sh[1], fmt.Sprintf("scale %g shift (%g,%g)", s, sh[0], sh[1])}
+	return tr
 }
 
 func drawQueries(g *stream, b orb.Bound, n int, extra []orb.Point) []gen.P {
@@ -280,9 +318,9 @@ func drawO(t *rapid.T) int {
 // ---------------------------------------------------------------- bookkeeping shared by the properties
 
 func assumptions() {
-	stats.Assume("coordinates are finite with |v| <= 1e4; tolerances: output vertices within 1e-9*(1+scale) of the box; areas within 1e-9*(1+boxArea+1e-3*scale*(w+h)); query points farther than 1e-6 from the box sides, the input boundary and the output boundary")
+	stats.Assume("all tolerances are relative to the case (size = larger box side, noise = 64*2^-52*largest |coordinate|): output vertices within 1e-9*size+noise of the box; areas within 1e-9*boxArea+8*noise*(w+h); query points farther than 1e-6*size+4*noise from the box sides, the input boundary and the output boundary; coordinates finite, |v| up to about 2e19 (2e7 offsets x 2^40), offset/size up to about 1e8")
 	stats.Assume("input rings are simple (star-shaped by construction or lattice points sorted by angle around an interior centre), outer rings wound as requested, holes wound the other way, holes inside their outer ring and pairwise disjoint, polygons of a multi-polygon pairwise disjoint or nested island-in-hole")
-	stats.Assume("random generation keeps 1e-9*(1+scale) away from degenerate contact (ring vertex on the box boundary, ring edge through a box corner); exact degenerate contact is decided on the deterministic grid corpus against the list in known_findings_C16.json")
+	stats.Assume("random generation keeps 1e-9*size+noise away from degenerate contact (ring vertex on the box boundary, ring edge through a box corner); exact degenerate contact is decided on the deterministic grid corpus against the list in known_findings_C16.json")
 	stats.Assume("a region that contains the whole box while no boundary enters the open box is outside the stated domain (smartclip cannot know the side) and is skipped")
 	stats.Assume("open input: start and end strictly outside the box, or exactly on the box boundary (path cut at a crossing, no corner, going straight into / out of the open box); entries and exits must alternate around the box, otherwise the completion is undefined and the case is skipped")
 	stats.Assume("output polygons are taken to be interior-disjoint (the package promises simple OGC geometries): the summed area of the output polygons must equal the area of region ∩ box")
@@ -346,6 +384,9 @@ func classify(c Case, an *analysis, group string) bool {
 	}
 	if an.startIn {
 		stats.Class("start vertex inside the box (pieces re-joined)")
+	}
+	if c.Kind == "open" && len(an.polys[0][0]) == 2 {
+		stats.Class("open:two-point path (a single edge across the box)")
 	}
 	if an.endsOnBoundary > 0 {
 		stats.Class(fmt.Sprintf("open:%d end point(s) exactly on the box boundary", an.endsOnBoundary))
@@ -429,7 +470,7 @@ func ringCase(rt *rapid.T, mustCross bool) (Case, bool) {
 		stats.Class("rejected:ring with area < 1e-6")
 		return Case{}, false
 	}
-	tr := drawTransform(rt, class != "general")
+	tr := drawTransform(g, class != "general")
 	if tr.name != "identity" {
 		stats.Class("transformed")
 	}
@@ -639,7 +680,8 @@ func TestPropOpen(t *testing.T) {
 		for _, p := range r {
 			scale = math.Max(scale, math.Max(math.Abs(p[0]), math.Abs(p[1])))
 		}
-		cands := cutPositions(b, r, 1e-6*(1+scale))
+		_, clear, _ := tolerances(b, scale)
+		cands := cutPositions(b, r, clear)
 		if len(cands) < 2 {
 			stats.Class("rejected:ring cannot be cut outside the box")
 			return
@@ -738,7 +780,7 @@ func TestPropPolygon(t *testing.T) {
 		rmax := g.rng("rmax", 1, 5)
 		p, aims, _ := polygonAround(g, o, cx, cy, rmax, 1, 3, "p")
 		b := generalBox(g, append(aims, p[0]...), p[0])
-		tr := drawTransform(rt, false)
+		tr := drawTransform(g, false)
 		if tr.name != "identity" {
 			stats.Class("transformed")
 		}
@@ -836,7 +878,7 @@ func TestPropMultiPolygon(t *testing.T) {
 			all = append(all, p[0]...)
 		}
 		b := generalBox(g, append(append([]orb.Point(nil), aims...), all...), all)
-		tr := drawTransform(rt, false)
+		tr := drawTransform(g, false)
 		if tr.name != "identity" {
 			stats.Class("transformed")
 		}
